@@ -80,8 +80,12 @@ pub fn run(ctx: &Ctx) -> Report {
     if ctx.wants_name("belt_block::belt_wblock") {
         let mut rng = ctx.rng("total:wblock");
         let mut log = Vec::new();
-        for i in 0..ctx.budget(300, 20_000, 4) {
-            let len = if i < 300 { 32 + i as usize } else { 32 + rng.below(4000) };
+        // thorough: one very long buffer per run (block count beyond 16 bits; the algorithm is
+        // quadratic, ~20 s) on shard 0
+        let huge = ctx.tier == Tier::Thorough && ctx.scale >= 1.0 && ctx.shard == 0;
+        let nw = ctx.budget(300, 20_000, 4);
+        for i in 0..nw + huge as u64 {
+            let len = if i == nw { 524_288 + 17 } else if i < 300 { 32 + i as usize } else if i % 50 == 0 { 32 + rng.below(70_000) } else { 32 + rng.below(4000) };
             let kc = gen::pick_class(&mut rng, i);
             let kb = gen::gen(&mut rng, 32, kc);
             let mut key = [0u32; 8];
